@@ -45,7 +45,16 @@ MANIFEST = dict(
          "implementation-only oracles after each rewrite: real-parser round trip of gen_decl, g++ is_same with "
          "`void name(params..., R* arg)` built by the compiler from the original, result type of the prototype renderings is void; "
          "the g++/gcc is_same oracles also compare every declaration rendered under another name (name='SH_x') and without a "
-         "name (name=None), nested declarators (pointer/reference to function and to array) included.",
+         "name (name=None), nested declarators (pointer/reference to function and to array) included. NAME LOOKUP through nested "
+         "scopes (Model/NameLookup.lean: the chain of library / namespace / class / block scopes, innermost first, with using-"
+         "directives; Chain.lookup models unqualified_lookup of every node kind, Chain.toEnv builds the environment the "
+         "declaration parser takes as given): inner_hides_outer (a name declared in an inner scope hides the same name further "
+         "out), class_falls_through, delegate_is_transparent, namespace_using_before_outer, toEnv_unq (Env.unq of the flattened "
+         "chain IS the chain lookup), member_type_hides_in_env; tied by the driver ops `scope` / `sparse` to the real "
+         "unqualified_lookup and to check_decl(text, namespace=scope) on generated scope trees with the same names declared at "
+         "several depths (every subset of six scopes; random trees with using-directives); g++ compiles the C++ text of each tree "
+         "with static_assert(is_same<N, ::T>) inside every scope for the type T Shroud resolves N to, and for the parameter / "
+         "result types of declarations parsed inside the scope.",
     design="3 C09",
     note="Trusted: Lean kernel (axioms propext, Classical.choice, Quot.sound); the hand-written models Model/Decl.lean, Token.lean, "
          "CxxMeaning.lean, validated on generated inputs only (corpus, 981 systematic parameter-list shapes, 672 qualified names "
@@ -88,6 +97,12 @@ THEOREMS = {
         "Shroud.Decl.resultAsArg_roundtrip_partial",
         "Shroud.Decl.asArg_keeps_type",
         "Shroud.Decl.setType_keeps_rest",
+        "Shroud.Decl.inner_hides_outer",
+        "Shroud.Decl.class_falls_through",
+        "Shroud.Decl.delegate_is_transparent",
+        "Shroud.Decl.namespace_using_before_outer",
+        "Shroud.Decl.toEnv_unq",
+        "Shroud.Decl.member_type_hides_in_env",
     ]
 }
 
@@ -1276,6 +1291,8 @@ def run(ctx):
         "int()/float()/str() run by the harness, not modelled",
         "g++/gcc 12 as the C++/C reference for the is_same oracles; cxxMeaning as a rendering of ISO C++ for this subset",
         "hypothesis BaseAgrees of the meaning theorems: checked exhaustively by the driver op `fund` and against g++, not proved",
+        "Model/NameLookup.lean (scope-chain lookup), tied by the driver ops `scope` / `sparse`; the symbol tables of the scopes are "
+        "read from the real nodes (`symbols`, `using`, `parent`), the lookup order is the model's",
     ]
     ctx.cov["rule"] = ("corpus + grammar-directed declarations (depth-bounded) + single-token mutations + random token sequences; "
                        "exact comparison of outcome class, diagnostic, structure and five renderings; non-trivial = distinct accepted "
@@ -1283,6 +1300,8 @@ def run(ctx):
                        "{set_return_to_void, _as_arg, result_as_arg, set_type, instantiate}, every rewritten declaration compared "
                        "with the model and re-parsed from its own rendering; renamed / unnamed renderings of every g++ candidate")
     ctx.assumptions += [
+        "name lookup: qualified names through classes (`Pen::Color`), template parameter scopes and cyclic using-directives are outside the model; "
+        "using-directives are compared with the real lookup only (C++ gives them a different, ambiguity-producing meaning)",
         "result_as_arg is exercised with argument names that are not parameter names (its precondition); set_return_to_void on named declarators",
         "the round-trip theorem is about the Lean model on its WF domain; the model is validated against declast.py on generated inputs only",
         "clauses (1),(2) are proved for Shroud's own renderings (canonical token lists); for arbitrary accepted inputs agreement "
@@ -1421,6 +1440,12 @@ def run(ctx):
         rewrite_phase(ctx, fam + fns, ok, thorough)
 
     dc.guarded(ctx, "rewrite", phase_rewrite)
+
+    def phase_scope():
+        from tools.props import c09_scope
+        c09_scope.run_scope(ctx, ok, thorough)
+
+    dc.guarded(ctx, "name-lookup", phase_scope)
 
 
 def replay(path):
